@@ -207,6 +207,19 @@ func isolationMatrix() []isoCell {
 	add("ref/object-block", oneFieldBundle(fld("other", tRef(kObject, "Other", "iso.v1.Other").with(func(t *jT) { t.RefAsBlock = true })), objDecl("Other", fld("name", tScalar(kString)))))
 	add("ref/object-qualified", oneFieldBundle(fld("other", tRef(kObject, "iso.v1.Other", "iso.v1.Other")), objDecl("Other", fld("name", tScalar(kString)))))
 	add("ref/object-flatten", oneFieldBundle(fld("other", tRef(kObject, "Other", "iso.v1.Other").with(func(t *jT) { t.Flatten = true })), objDecl("Other", fld("name", tScalar(kString)))))
+	// the flattened property has the name of a member its object brings in
+	add("ref/object-flatten-same-name", oneFieldBundle(fld("other", tRef(kObject, "Other", "iso.v1.Other").with(func(t *jT) { t.Flatten = true })), objDecl("Other", fld("other", tScalar(kString)), fld("more", tInt("INT32")))))
+	add("inline/object-flatten-same-name", oneFieldBundle(fld("address", &jT{Kind: kObject, Flatten: true, Inline: &jDecl{Kind: kObject, Fields: []*jF{fld("address", tScalar(kString)), fld("city", tScalar(kString))}}})))
+	// a nested type (named after its field) has the name of a package-level type which a sibling field refers to
+	{
+		inlineEnum := func() *jT { return &jT{Kind: kEnum, Inline: &jDecl{Kind: kEnum, Options: []string{"ON", "OFF"}}} }
+		statusRef := func() *jT { return tRef(kEnum, "Status", "iso.v1.Status") }
+		add("scoping/nested-enum-shadows-top-enum", elemsBundle(enumDecl("Status", "OPEN", "DONE"), objDecl("Job", fld("status", inlineEnum()), fld("overall", statusRef().with(func(t *jT) { t.Rules = &jRules{In: []string{"OPEN"}} })), fld("history", tArr(statusRef())))))
+		add("scoping/nested-enum-shadows-top-enum-ref-first", elemsBundle(enumDecl("Status", "OPEN", "DONE"), objDecl("Job", fld("overall", statusRef().with(func(t *jT) { t.Rules = &jRules{NotIn: []string{"DONE"}} })), fld("status", inlineEnum()))))
+		add("scoping/nested-enum-shadows-top-message", elemsBundle(objDecl("Status", fld("text", tScalar(kString))), objDecl("Job", fld("status", inlineEnum()), fld("overall", tRef(kObject, "Status", "iso.v1.Status")), fld("all", tArr(tRef(kObject, "Status", "iso.v1.Status"))))))
+		add("scoping/nested-message-shadows-top-enum", elemsBundle(enumDecl("Mode", "FAST", "SLOW"), objDecl("Job", fld("mode", &jT{Kind: kObject, Inline: &jDecl{Kind: kObject, Fields: []*jF{fld("label", tScalar(kString))}}}), fld("overall", tRef(kEnum, "Mode", "iso.v1.Mode")), fld("byName", tMap(tRef(kEnum, "Mode", "iso.v1.Mode"))))))
+		add("scoping/nested-message-shadows-top-message", elemsBundle(objDecl("Item", fld("name", tScalar(kString))), objDecl("Holder", fld("item", &jT{Kind: kObject, Inline: &jDecl{Kind: kObject, Fields: []*jF{fld("label", tScalar(kString))}}}), fld("outer", tRef(kObject, "Item", "iso.v1.Item")))))
+	}
 	add("ref/object-self", elemsBundle(objDecl("Node", fld("next", tRef(kObject, "Node", "iso.v1.Node")), fld("kids", tArr(tRef(kObject, "Node", "iso.v1.Node"))), fld("byName", tMap(tRef(kObject, "Node", "iso.v1.Node"))))))
 	add("ref/object-mutual", elemsBundle(objDecl("Ping", fld("pong", tRef(kObject, "Pong", "iso.v1.Pong"))), objDecl("Pong", fld("ping", tRef(kObject, "Ping", "iso.v1.Ping")))))
 	add("ref/object-forward", elemsBundle(objDecl("First", fld("second", tRef(kObject, "Second", "iso.v1.Second"))), objDecl("Second", fld("name", tScalar(kString)))))
